@@ -29,4 +29,24 @@ mod verif_zz_exp {
         let v = c.get_or_init(|| 7);
         assert!(*v == 7);
     }
+
+    // @harness id=ZZ tier=quick timeout=900 mem=12 checks=rust
+    #[kani::proof]
+    #[kani::unwind(12)]
+    //@STUBS repeat
+    fn zz_expanded_repeatstub() {
+        let t = TabExpandedString::WithTabs { original: "a\tb".into(), tab_width: 2, expanded: std::sync::OnceLock::new() };
+        assert!(t.expanded().len() == 4);
+        std::mem::forget(t);
+    }
+
+    // @harness id=ZZ tier=quick timeout=900 mem=12 checks=rust
+    #[kani::proof]
+    #[kani::unwind(12)]
+    //@STUBS repeat replacetab
+    fn zz_expanded_replacestub() {
+        let t = TabExpandedString::WithTabs { original: "a\tb".into(), tab_width: 2, expanded: std::sync::OnceLock::new() };
+        assert!(t.expanded().len() == 4);
+        std::mem::forget(t);
+    }
 }
